@@ -201,6 +201,8 @@ func registerIntrinsics(m *Machine) {
 	}
 	N["(*strings.Builder).copyCheck"] = nop
 	N["strings.Clone"] = func(m *Machine, fr *Frame, a []Value) Value { return a[0] }
+	N["internal/stringslite.Clone"] = N["strings.Clone"]
+	N["strconv.cloneString"] = N["strings.Clone"]
 	N["unique.Make[string]"] = func(m *Machine, fr *Frame, a []Value) Value { unsupported("unique.Make"); return nil }
 
 	// ---- sync ----
